@@ -71,6 +71,13 @@ def load(path: Union[str, DDSPath, pathlib.Path]) -> Any:
         # The path is kept by the evaluation in progress: it is only committed to the store when the
         # evaluation ends, so serve the blob that this evaluation assigned to it.
         key = _eval_ctx.requested_paths[path_]
+        if not _store().has_blob(key):
+            raise DDSException(
+                f"The path {path_} is loaded before it is produced: it is kept later in the "
+                f"evaluation in progress. Suggestion: call the function that keeps {path_} before "
+                f"loading it.",
+                DDSErrorCode.STORE_PATH_NOT_FOUND,
+            )
     else:
         key = _store().fetch_paths([path_]).get(path_)
     if key is None:
